@@ -29,6 +29,10 @@ BIN = os.path.join(VERIF, "bin")
 EVID = os.path.join(VERIF, "evidence")
 REPLAYS = os.path.join(VERIF, "replays")
 REPO = os.environ.get("VERIF_REPO", "/repo")
+if REPO != "/repo":
+    # sensitivity self-test against a scratch copy: nothing it writes is evidence about /repo
+    EVID = os.path.join(BIN, "alt", "evidence")
+    REPLAYS = os.path.join(BIN, "alt", "replays")
 GO = "go1.26.8"
 
 ENV = dict(os.environ)
@@ -38,7 +42,7 @@ ENV.update(GOFLAGS="-mod=mod", GOPROXY="off", GOSUMDB="off", GOTOOLCHAIN="local"
 PROPS = {
     "C05": dict(level="exploration", race=False, quick_count=4000, quick_budget=40, thorough_budget=600),
     "C06": dict(level="exploration", race=False, quick_count=40000, quick_budget=40, thorough_budget=600),
-    "C07": dict(level="fault_enumeration", race=False, quick_count=40, quick_budget=40, thorough_budget=600),
+    "C07": dict(level="fault_enumeration", race=False, quick_count=300, quick_budget=40, thorough_budget=600),
     "C08": dict(level="exploration", race=False, quick_count=4000, quick_budget=40, thorough_budget=600),
     "C09": dict(level="exploration", race=False, quick_count=600, quick_budget=40, thorough_budget=600),
     "C10": dict(level="fault_enumeration", race=True, quick_count=60, quick_budget=40, thorough_budget=600),
@@ -155,7 +159,7 @@ def replay_once(binary, prop, path, tmpdir):
 
 def merge(results):
     m = dict(evaluations=0, steps=0, ticks=0, sim_ns=0, fired={}, classes={}, known={}, known_n={}, violations=[], samples=[],
-             nontrivial=set(), truncated=False, worker_wall=[])
+             nontrivial=set(), points={}, truncated=False, worker_wall=[])
     for r in results:
         m["evaluations"] += r["evaluations"]
         m["steps"] += r["steps"]
@@ -175,6 +179,7 @@ def merge(results):
             m["violations"].append(v)
         m["samples"] += r.get("samples") or []
         m["nontrivial"].update(r.get("nontrivial_fingerprints") or [])
+        m["points"].update(r.get("nontrivial_points") or {})
         m["truncated"] = m["truncated"] or r.get("nontrivial_truncated", False)
         m["worker_wall"].append(r["wall_s"])
     return m
@@ -260,6 +265,9 @@ def _check(prop, tier, cfg, seed, t0, ev_path, tmpdir):
 
     wall = time.time() - t0
     nontrivial = len(m["nontrivial"])
+    if m["points"]:
+        # enumerating properties: distinct (scenario, injection point) pairs in which the event was served
+        nontrivial = sum(m["points"].values())
     hours = max(wall, 1e-9) / 3600.0
     fired_total = sum(m["fired"].values())
     rule = RULES.get(prop, "")
